@@ -55,8 +55,8 @@ def run_inprocess(case, tmp):
         argv.append("--pretty")
     if o.get("query_file"):
         qp = os.path.join(tmp, "query.txt")
-        with open(qp, "w", encoding="utf-8") as f:
-            f.write(case["q"])
+        with open(qp, "w", encoding="utf-8", newline="") as f:
+            f.write(case.get("qpre", "") + case["q"] + case.get("qpost", ""))
         argv += ["-r", qp]
     else:
         argv.append("--query=" + case["q"])
@@ -74,6 +74,10 @@ def run_inprocess(case, tmp):
         op = os.path.join(tmp, "out.json")
         if os.path.exists(op):
             os.unlink(op)
+        if o.get("stale_output"):
+            # the output file already exists and holds something longer than any result here
+            with open(op, "w", encoding="utf-8") as f:
+                f.write(STALE)
         argv += ["-o", op]
     out, err = io.StringIO(), io.StringIO()
     saved = (sys.argv, sys.stdin, sys.stdout, sys.stderr)
@@ -81,7 +85,10 @@ def run_inprocess(case, tmp):
     sys.argv, sys.stdin, sys.stdout, sys.stderr = argv, stdin, out, err
     try:
         try:
-            cli.main()
+            rv = cli.main()
+            # the installed console script is `sys.exit(main())`: whatever main() returns becomes the exit status
+            if rv is not None and rv != 0:
+                res["exit"] = rv if isinstance(rv, int) else 1
         except SystemExit as e:
             res["exit"] = e.code if isinstance(e.code, int) else (0 if e.code is None else 1)
         except BaseException as e:  # noqa: BLE001
@@ -100,17 +107,25 @@ def run_inprocess(case, tmp):
     return res
 
 
+STALE = "[" + ", ".join(['"stale output %d"' % i for i in range(400)]) + "]\n" * 3
+
+
 def run_subprocess(case, tmp):
     o = case["opts"]
-    argv = [sys.executable, "-X", "utf8", "-m", "jsonpath_rfc9535"]
+    if o.get("launcher"):
+        # the console-script launcher pip generates for [project.scripts] jsonpath-rfc9535 = "jsonpath_rfc9535.cli:main"
+        argv = [sys.executable, "-X", "utf8", "-c",
+                "import sys; from jsonpath_rfc9535.cli import main; sys.argv[0] = 'jsonpath-rfc9535'; sys.exit(main())"]
+    else:
+        argv = [sys.executable, "-X", "utf8", "-m", "jsonpath_rfc9535"]
     if o.get("debug"):
         argv.append("--debug")
     if o.get("pretty"):
         argv.append("--pretty")
     if o.get("query_file"):
         qp = os.path.join(tmp, "squery.txt")
-        with open(qp, "w", encoding="utf-8") as f:
-            f.write(case["q"])
+        with open(qp, "w", encoding="utf-8", newline="") as f:
+            f.write(case.get("qpre", "") + case["q"] + case.get("qpost", ""))
         argv += ["-r", qp]
     else:
         argv.append("--query=" + case["q"])
@@ -127,6 +142,9 @@ def run_subprocess(case, tmp):
         op = os.path.join(tmp, "sout.json")
         if os.path.exists(op):
             os.unlink(op)
+        if o.get("stale_output"):
+            with open(op, "w", encoding="utf-8") as f:
+                f.write(STALE)
         argv += ["-o", op]
     p = subprocess.run(argv, input=stdin, capture_output=True, timeout=120)
     res = {"exit": p.returncode, "stdout": p.stdout.decode("utf-8", "replace"), "stderr": p.stderr.decode("utf-8", "replace"),
@@ -151,9 +169,11 @@ def expected_of(case):
     """("ok", values) or ("error", class)."""
     import jsonpath_rfc9535 as jp
 
-    q = case["q"].strip() if case["opts"].get("query_file") else case["q"]
+    q = case["q"]   # a query file may add JSONPath blank space around it (qpre/qpost); nothing else is insignificant
     try:
         cq = jp.JSONPathEnvironment().compile(q)
+    except RecursionError:
+        return "error", "query:too-deep-to-parse"
     except Exception as e:  # noqa: BLE001
         return "error", "query:" + type(e).__name__
     try:
@@ -166,7 +186,7 @@ def expected_of(case):
     except RecursionError:
         return "error", "document:too-deep-for-json"
     except ValueError:
-        return "error", "document:invalid-json"
+        return "error", "document:invalid-json"   # includes integers beyond the interpreter's digit limit
     try:
         values = cq.find(doc).values()
     except Exception as e:  # noqa: BLE001
@@ -181,7 +201,7 @@ def expected_of(case):
 def judge(case, res, how):
     exp, detail = expected_of(case)
     o = case["opts"]
-    opts = "+".join(k for k in ("query_file", "doc_file", "out_file", "pretty", "debug") if o.get(k)) or "plain"
+    opts = "+".join(k for k in ("query_file", "doc_file", "out_file", "pretty", "debug", "stale_output", "launcher") if o.get(k)) or "plain"
     q = case["q"]
     if exp == "ok":
         if res["exit"] != 0 or res["escaped"]:
@@ -268,7 +288,8 @@ def run_shard(spec, shard):
     seen_classes = {}
 
     def body(r):
-        opts = {k: r.random() < p for k, p in (("query_file", 0.3), ("doc_file", 0.5), ("out_file", 0.4), ("pretty", 0.3), ("debug", 0.15))}
+        opts = {k: r.random() < p for k, p in (("query_file", 0.3), ("doc_file", 0.5), ("out_file", 0.4), ("pretty", 0.3), ("debug", 0.15),
+                                               ("stale_output", 0.4), ("launcher", 0.5))}
         k = r.random()
         case = {"opts": opts}
         if k < 0.5:
@@ -282,14 +303,30 @@ def run_shard(spec, shard):
             doc = diff.make_doc(r, "quick")
             q = r.choice(ERR_QUERIES) if r.random() < 0.6 else M.mutant(diff.make_query(r, shard, doc=doc)[1], r)[0]
             case.update(q=q, doc=doc)
-        elif k < 0.85:
+        elif k < 0.78:
+            # names and queries ending in white space that is *not* JSONPath blank space
+            ws = r.choice(["\u3000", "\u00a0", "\u2003", "\u2028", "\x0b", "\x0c", "\x1f", "\x85"])
+            name = "a" + ws
+            if ord(ws) < 0x20:
+                case.update(q="$.a" + ws, doc={"a": 1})          # a control character: not a valid query
+            else:
+                case.update(q="$.a" + ws, doc={"a": 1, name: 2})  # a name character: selects the other member
+        elif k < 0.8:
+            case.update(q=r.choice(["$", "$.a", "$..a"]), doc_text='{"a": %s, "b": [1]}' % ("7" * r.choice([4300, 4301, 5000])))
+        elif k < 0.82:
+            d = r.choice([200, 400, 3000])
+            case.update(q="$[?" + "(" * d + "@.a" + ")" * d + "]", doc=[{"a": 1}, {}])
+        elif k < 0.88:
             case.update(q=r.choice(DEEP_QUERIES + ["$[0]", "$"]), deep=r.choice([50, 99, 100, 101, 150, 600, 1250, 1250, 3000]))
         elif k < 0.93:
             case.update(q=r.choice(["$", "$.a", "$[?@.a]"]), doc_text=r.choice(["", "{", "[1,", "{\"a\":}", "nul", "[1] x", "'a'", "{\"a\": NaN}x"]))
         else:
             case.update(q=r.choice(["$", "$..a"]), doc_hex=r.choice(["ff", "5b22c3285d", "c0af", "80", "e28228", "f0288cbc"]))
-        if opts["query_file"] and case["q"] != case["q"].strip():
+        if opts["query_file"] and case["q"] != case["q"].strip(" \t\r\n"):
             opts["query_file"] = False
+        if opts["query_file"]:
+            case["qpre"] = r.choice(["", "", " ", "\n", "\t"])
+            case["qpost"] = r.choice(["", "\n", "\r\n", " \n", "\n\n"])
         if opts["query_file"] and any(ord(c) > 0x7F for c in case["q"]) and False:
             opts["query_file"] = False
         with default_recursion_limit():
